@@ -127,10 +127,19 @@ fn vk_sf_split_b2_dw(neg: bool, pos: usize) {
     let (hi, lo) = split_digits::<2>(v, pos);
     assert!(vk_sf_is(hi, neg, whi) && vk_sf_is(lo, neg, wlo));
 }
-vk_sf_signs!(vk_stub_float_split_digits_b2_dword_p1, 6, vk_sf_split_b2_dw, [1]);
+// (the borrowing form only at whole-word positions and beyond the top: elsewhere its intermediate
+//  `UBig::from_words(..)` value of computed class is shifted again -- see the concrete harnesses below)
 vk_sf_signs!(vk_stub_float_split_digits_b2_dword_p64, 6, vk_sf_split_b2_dw, [64]);
-vk_sf_signs!(vk_stub_float_split_digits_b2_dword_p127, 6, vk_sf_split_b2_dw, [127]);
 vk_sf_signs!(vk_stub_float_split_digits_b2_dword_p128, 6, vk_sf_split_b2_dw, [128, 130]);
+/// base 2, owning form only, two-word magnitude
+fn vk_sf_split_b2_dw_own(neg: bool, pos: usize) {
+    let (l, h): (Word, Word) = (any(), any());
+    let (whi, wlo) = vk_sf_cut((l as u128) | ((h as u128) << 64), pos);
+    let (hi, lo) = split_digits::<2>(vk_sf_mk(2, neg, l, h), pos);
+    assert!(vk_sf_is(hi, neg, whi) && vk_sf_is(lo, neg, wlo));
+}
+vk_sf_signs!(vk_stub_float_split_digits_b2_dword_p1, 6, vk_sf_split_b2_dw_own, [1, 65]);
+vk_sf_signs!(vk_stub_float_split_digits_b2_dword_p127, 6, vk_sf_split_b2_dw_own, [127]);
 
 /// bases 2 / 16, both forms, CONCRETE magnitudes at positions where the symbolic harnesses are out of reach (an
 /// intermediate `UBig::from_words(..)` result of computed class is shifted again)
@@ -379,7 +388,7 @@ fn vk_sf_new_b10(neg: bool, m: u128) {
     vk_sf_check_new(r.significand, r.exponent, neg, m, e, 0, 6);
 }
 vk_sf_signs!(vk_stub_float_repr_new_b10_a, 12, vk_sf_new_b10, [7, 10, 1200]);
-vk_sf_signs!(vk_stub_float_repr_new_b10_b, 12, vk_sf_new_b10, [12345, 70000]);
+vk_sf_signs!(vk_stub_float_repr_new_b10_b, 12, vk_sf_new_b10, [12345, 500]);
 vk_sf_signs!(vk_stub_float_repr_new_b10_c, 12, vk_sf_new_b10, [((1u128 << 64) + 5) * 100]);
 /// zero: (0, 0) whatever the exponent, in every base
 #[cfg_attr(kani, kani::proof)]
